@@ -84,9 +84,10 @@ def arrivals(ctx, P, iters):
             if len(bs) != 1 or bs[0].d["args"] != ["self.next_node", "self.next_class"]:
                 viol("batch-sample", "batch_size(...) x%d" % len(bs), "exactly one batch size must be sampled, for the stream that fired", loc(fn), st)
             loops = [e for e in evs if e.kind in ("iter", "loopexit") and isinstance(e.node, ast.For)]
+            bvar = [unparse(e.d["target_node"]) for e in evs if e.kind == "assign" and e.d.get("local")]
             for lp in loops[:1]:
                 it = unparse(lp.node.iter).replace(" ", "")
-                if it not in ("range(batch)", "range(self.batch_size(self.next_node,self.next_class))"):
+                if it not in tuple("range(%s)" % b for b in bvar) + ("range(self.batch_size(self.next_node,self.next_class))",):
                     viol("batch-loop-bound", it, "the creation loop must run exactly the sampled batch size times", loc(lp.node), st)
             # one construction + one hand-over per iteration
             cnt = None
@@ -129,13 +130,15 @@ def batch_guard(ctx, P):
         for st in w.paths_of(cls, fn):
             pcs = [e.d["formula"] if e.pol else guards.neg(e.d["formula"]) for e in st.events if e.kind == "guard"]
             pc = ("and", tuple(pcs)) if pcs else ("const", True)
-            want = ("and", (("isinstance", "batch", "int"), ("not", ("lt", "batch", "0"))))
+            bname = [unparse(x.targets[0]) for x in ast.walk(fn) if isinstance(x, ast.Assign) and isinstance(x.value, ast.Call) and call_name(x.value) in ("_sample", "sample")]
+            bname = bname[0] if bname else "batch"
+            want = ("and", (("isinstance", bname, "int"), ("not", ("lt", bname, "0"))))
             if st.status == "return":
                 rets += 1
                 okk = guards.equivalent(pc, want)[0]
                 ob.ok("%s.batch_size:return" % view.name, "return under %s" % guards.show(pc))
                 rv = [e for e in st.events if e.kind == "return"]
-                if not okk or not rv or unparse(rv[0].node.value) != "batch":
+                if not okk or not rv or unparse(rv[0].node.value) != bname:
                     ctx.violation(ob, "R5.batch-guard", "%s.batch_size" % cls.name, "return under %s" % guards.show(pc), "batch-guard",
                                   "a batch size must be returned exactly when it is an int and >= 0 (found condition %s)" % guards.show(pc), loc(fn), witness(st))
             elif st.status == "raise":
@@ -274,14 +277,24 @@ def service_duration(ctx, P, iters):
     for view in family_views(P, "Node"):
         cls, fn = view.method("give_individual_a_service_time")
         tok = fn.args.args[1].arg
-        body = [x for x in fn.body if not (isinstance(x, ast.Expr) and isinstance(x.value, ast.Constant))]
-        okk = False
-        if len(body) == 1 and isinstance(body[0], ast.If):
-            f = guards.norm(body[0].test, unparse)
-            t, o = body[0].body, body[0].orelse
-            okk = (f == ("not", ("truth", tok + ".service_time")) and len(t) == 1 and unparse(t[0]) == "%s.service_time = self.get_service_time(%s)" % (tok, tok)
-                   and len(o) == 1 and unparse(o[0]) == "self.give_service_time_after_preemption(%s)" % tok)
+        w = Walker(P, view, keep=lambda e: e.kind == "guard" or (e.kind == "assign" and not e.d.get("local")) or (e.kind == "call" and e.d["meth"] in ("give_service_time_after_preemption",)),
+                   track=lambda t, f: True, inline=lambda ev: False)
+        okk, npaths = True, 0
+        for st in w.paths_of(cls, fn):
+            if st.status == "raise":
+                continue
+            npaths += 1
+            facts = rules.path_condition(st.events)
+            fresh = facts.get(("truth", tok + ".service_time"))
+            asg = [e for e in st.events if e.kind == "assign"]
+            calls = [e for e in st.events if e.kind == "call"]
+            if fresh is False:
+                okk = okk and len(asg) == 1 and asg[0].d["target"] == tok + ".service_time" and asg[0].d["value"].replace(" ", "") == "self.get_service_time(%s)" % tok and not calls
+            elif fresh is True:
+                okk = okk and not asg and len(calls) == 1 and calls[0].d["args"] == [tok]
+            else:
+                okk = False
         ob.ok("%s.give_individual_a_service_time" % view.name)
-        if not okk:
+        if not okk or npaths != 2:
             ctx.violation(ob, "R7.service-duration", "%s.give_individual_a_service_time" % cls.name, "fresh customer -> get_service_time; otherwise restart option", "service-time-source",
                           "a customer without service_time must get a fresh sample for itself, a pre-empted one its restart option", loc(fn))
